@@ -49,7 +49,9 @@ class Protocol(Component):
         if event.name.endswith('_success'):
             source_event = args[0]
 
-            if getattr(args[0], 'node_call_id', False) is not False:
+            # every Protocol of the process listens on this channel: only the
+            # connection the call came in on answers it
+            if getattr(args[0], 'node_call_id', False) is not False and getattr(args[0], 'node_protocol', self) is self:
                 self.send_result(source_event.node_call_id, source_event.value)
 
     def send(self, event):
@@ -116,6 +118,7 @@ class Protocol(Component):
             event.success_channels = ('node_result',)
             event.node_call_id = id
             event.node_sock = self.__sock
+            event.node_protocol = self
 
             self.fire(event, *event.channels)
 
